@@ -73,6 +73,7 @@ type State struct {
 	calllog   []string
 	touched   map[string]bool // heap names written on this path (incl. via havoc)
 	dead      bool
+	lastRes   map[string]Val // callee name -> result of its most recent call on this path
 }
 
 func (s *State) clone() *State {
@@ -88,6 +89,12 @@ func (s *State) clone() *State {
 		n.touched[k] = v
 	}
 	n.calllog = append([]string(nil), s.calllog...)
+	if s.lastRes != nil {
+		n.lastRes = make(map[string]Val, len(s.lastRes))
+		for k, v := range s.lastRes {
+			n.lastRes[k] = v
+		}
+	}
 	for _, f := range s.frames {
 		nf := *f
 		nf.regs = make(map[ssa.Value]Val, len(f.regs))
